@@ -174,6 +174,29 @@ theorem transl_ars_enc_dec_enc (p : Ars.Msg) (h : Ars.wf p = true) (bs : Bytes)
   rw [as_bytes_eq, C16.ars_reencode p h, ofE_id_ok hb]
   rfl
 
+/-- the headline "length prefix = bytes that follow" for ONE length-value item, purely between the two TRANSLATED helpers:
+what the translated `encode_len_val` returns for a `str` of at most 255 encoded octets (or `None`), embedded anywhere in a byte
+string, is read back by the translated `read_len_val` as exactly the encoded octets, ending right behind them -/
+theorem transl_ars_lv_roundtrip (s : PyObj.Str) (h : s.utf8.length ≤ 255) (pre rest : Bytes) :
+    ∃ bs, AutomaticRegistrationService.encode_len_val_str modelExt s = .ok bs ∧
+      bs.length = s.utf8.length + 1 ∧
+      AutomaticRegistrationService.read_len_val modelExt (pre ++ bs ++ rest) (pre.length : Int)
+        = .ok (((pre.length + bs.length : Nat) : Int), s.utf8) := by
+  refine ⟨s.utf8.length :: s.utf8, ?_, by simp, ?_⟩
+  · rw [encode_len_val_str_eq]
+    cases hu : s.utf8 with
+    | nil => rfl
+    | cons a t =>
+      have : ¬ (a :: t).length ≥ 256 := by rw [← hu]; omega
+      simp only [Ars.lv, if_neg this]
+      rfl
+  · rw [read_len_val_eq]
+    have e : pre ++ (s.utf8.length :: s.utf8) ++ rest = pre ++ (s.utf8.length :: (s.utf8 ++ rest)) := by simp
+    rw [e, Ars.readLv_at pre s.utf8 rest]
+    simp only [ofE_ok, List.length_cons]
+    congr 2
+    omega
+
 /-- the only response header `Ars.fromBytes` builds is `rshOfByte octet header.ack`: its context is the message's own
 acknowledged flag, so `rshObj` (context object = the message's header with that flag) shows exactly the object `from_bytes`
 returns -/
@@ -301,6 +324,47 @@ theorem transl_tms_enc_dec_enc (p : Tms.Msg) (h : Tms.wf p = true) (bs : Bytes)
   rw [tms_as_bytes_eq] at hb
   rw [tms_as_bytes_eq, C16.tms_reencode p h, ofE_id_ok hb]
   rfl
+
+theorem sn_bytes_table : ∀ (sn : Fin 128) (e : Fin 3),
+    (match Tms.encodeSn (some sn.val)
+        (match e.val with | 0 => none | 1 => some .undefined | _ => some .ucs2le) with
+      | .ok bs => bs.all (fun x => decide (x < 256))
+      | .error _ => true) = true := by
+  decide +kernel
+
+/-- what `encodeSn` returns are octets -/
+theorem encodeSn_isBytes (sn : Nat) (enc : Option Tms.Encoding) (h : sn ≤ 127) (bs : Bytes)
+    (hb : Tms.encodeSn (some sn) enc = .ok bs) : Transl.Tms.isBytes bs := by
+  have hlt : sn < 128 := by omega
+  have key : bs.all (fun x => decide (x < 256)) = true := by
+    cases enc with
+    | none => have := sn_bytes_table ⟨sn, hlt⟩ ⟨0, by decide⟩; simp only [] at this; rw [hb] at this; exact this
+    | some e =>
+      cases e with
+      | undefined => have := sn_bytes_table ⟨sn, hlt⟩ ⟨1, by decide⟩; simp only [] at this; rw [hb] at this; exact this
+      | ucs2le => have := sn_bytes_table ⟨sn, hlt⟩ ⟨2, by decide⟩; simp only [] at this; rw [hb] at this; exact this
+  intro x hx
+  have := List.all_eq_true.mp key x hx
+  simpa using this
+
+/-- `C16.tms_sn_roundtrip` purely between the two TRANSLATED functions: what the translated `encode_sn_and_encoding` returns for
+a sequence number 0..127 and any encoding, followed by any octets, is read back by the translated `decode_sn_and_encoding` as the
+same sequence number and (normalised) encoding, ending right behind it -/
+theorem transl_tms_sn_roundtrip (m : Tms.Msg) (sn : Nat) (hs : m.seq = some sn) (h : sn ≤ 127) (rest : Bytes)
+    (hr : Transl.Tms.isBytes rest) :
+    ∃ bs, TextMessagingService.encode_sn_and_encoding modelExt (tmsObj m) = .ok bs ∧
+      TextMessagingService.decode_sn_and_encoding modelExt (bs ++ rest) ((0 : Nat) : Int)
+        = .ok ((bs.length : Int), (sn : Int), (Tms.normEnc m.encoding).map (fun e => ((e.val : Nat) : Int))) := by
+  obtain ⟨bs, h1, -, h3⟩ := C16.tms_sn_roundtrip sn m.encoding h rest
+  refine ⟨bs, ?_, ?_⟩
+  · rw [tms_encode_sn_eq, hs, h1]; rfl
+  · have hb : Transl.Tms.isBytes (bs ++ rest) := by
+      intro x hx
+      rcases List.mem_append.mp hx with hx | hx
+      · exact encodeSn_isBytes sn m.encoding h bs h1 x hx
+      · exact hr x hx
+    rw [tms_decode_sn_eq (bs ++ rest) hb 0, h3]
+    rfl
 
 example :
     -- text message built with the library: acknowledged, address "1", sequence number 85, UCS2_LE, text "ab"
